@@ -232,6 +232,189 @@ theorem scratchpad_accept_partial (w : World) (b : Nat) (nb : NodeSt) (k n m : N
   simp only [nodeRsp, replWrites_pad_held nb.store k n m v hk hheld, this, if_false, putLocal]
   exact get_put_same _ _ _
 
+/-! ## (4) mutable records converge -/
+
+/-- one directed exchange about key `k`: `src` advertises its whole index to `dst`; if the fetch of `k` from `src` is
+scheduled by that advertisement, `src` serves its copy and `dst` processes the reply -/
+def exchange (w : World) (src dst : Nat) (ns nd : NodeSt) (k : Nat) (c1 c2 : List Entry) : NodeSt :=
+  let r := nodeRep w dst nd src (indexOf ns.store) c1
+  if r.2.ret.any (fun e => e.key == k && e.holder == src) then
+    match serve ns k with
+    | some c => (nodeRsp w dst r.1 k c c2).1
+    | none => r.1
+  else r.1
+
+theorem nodeRep_store (w : World) (i : Nat) (nd : NodeSt) (h : Nat) (keys : List (Nat × Nat)) (c : List Entry) :
+    (nodeRep w i nd h keys c).1.store = nd.store := by
+  unfold nodeRep
+  split <;> rfl
+
+/-- what the advertisement must look like for the fetch to be scheduled: if the advertised version differs from the held
+one, it is the only new key and not already in flight -/
+def Fetchable (w : World) (src dst : Nat) (ns nd : NodeSt) (k : Nat) (cs cd : Content) : Prop :=
+  tyOf cs ≠ tyOf cd →
+    OnlyNew w dst nd src (indexOf ns.store) k (tyOf cs) ∧ hasKT nd.fetcher.ogf k (tyOf cs) = false
+
+theorem fetched_of_differs (w : World) (src dst : Nat) (ns nd : NodeSt) (k : Nat) (cs cd : Content) (c1 : List Entry)
+    (hheard : heard w dst src = true) (hf : Fetchable w src dst ns nd k cs cd) (hne : tyOf cs ≠ tyOf cd) :
+    (nodeRep w dst nd src (indexOf ns.store) c1).2.ret.any (fun e => e.key == k && e.holder == src) = true := by
+  obtain ⟨ho, hfly⟩ := hf hne
+  obtain ⟨⟨e, he, h1, _, h3⟩, _⟩ := single_new_scheduled w dst src nd (indexOf ns.store) k (tyOf cs) c1 hheard ho hfly
+  exact List.any_eq_true.2 ⟨e, he, by simp [h1, h3]⟩
+
+/-- a → b for a transaction set: afterwards `b` holds the union -/
+theorem exchange_txs (w : World) (src dst : Nat) (ns nd : NodeSt) (k : Nat) (ia ib : List Nat) (c1 c2 : List Entry)
+    (hk : k % 3 = 1) (hs : ns.store.get k = some (.txs ia)) (hd : nd.store.get k = some (.txs ib))
+    (hne : ia ≠ []) (hcb : Canon ib)
+    (hheard : heard w dst src = true) (hf : Fetchable w src dst ns nd k (.txs ia) (.txs ib)) :
+    (exchange w src dst ns nd k c1 c2).store.get k = some (.txs (union ia ib)) := by
+  have hst := nodeRep_store w dst nd src (indexOf ns.store) c1
+  have hfetched : (nodeRsp w dst (nodeRep w dst nd src (indexOf ns.store) c1).1 k (.txs ia) c2).1.store.get k
+      = some (.txs (union ia ib)) := by
+    have hd' : (nodeRep w dst nd src (indexOf ns.store) c1).1.store.get k = some (.txs ib) := by rw [hst]; exact hd
+    simp only [nodeRsp, replWrites_txs _ k ia hk hne ib (Or.inl hd'), putLocal]
+    exact get_put_same _ _ _
+  unfold exchange
+  simp only [serve, hs]
+  by_cases hty : tyOf (Content.txs ia) = tyOf (Content.txs ib)
+  · have hab : ia = ib := by
+      rcases tyOf_inj hty with h | ⟨_, _, _, _, h, _⟩
+      · injection h
+      · cases h
+    split
+    · exact hfetched
+    · rw [hst, hd, hab, union_of_subset hcb (fun x hx => hx)]
+  · rw [if_pos (fetched_of_differs w src dst ns nd k _ _ c1 hheard hf hty)]
+    exact hfetched
+
+/-- a → b for a register: afterwards `b` holds the union of the ops -/
+theorem exchange_reg (w : World) (src dst : Nat) (ns nd : NodeSt) (k : Nat) (alt : Bool) (oa ob : List Nat)
+    (c1 c2 : List Entry)
+    (hk : k % 3 = 2) (hs : ns.store.get k = some (.reg alt oa)) (hd : nd.store.get k = some (.reg alt ob))
+    (hcb : Canon ob)
+    (hheard : heard w dst src = true) (hf : Fetchable w src dst ns nd k (.reg alt oa) (.reg alt ob)) :
+    (exchange w src dst ns nd k c1 c2).store.get k = some (.reg alt (union oa ob)) := by
+  have hst := nodeRep_store w dst nd src (indexOf ns.store) c1
+  have hfetched : (nodeRsp w dst (nodeRep w dst nd src (indexOf ns.store) c1).1 k (.reg alt oa) c2).1.store.get k
+      = some (.reg alt (union oa ob)) := by
+    have hd' : (nodeRep w dst nd src (indexOf ns.store) c1).1.store.get k = some (.reg alt ob) := by rw [hst]; exact hd
+    by_cases hany : (oa.any fun o => !ob.contains o) = true
+    · simp only [nodeRsp, replWrites_reg_held _ k alt oa ob hk hd', hany, if_true, putLocal]
+      exact get_put_same _ _ _
+    · have hsub : ∀ x ∈ oa, x ∈ ob := by
+        intro x hx
+        simp only [List.any_eq_true, Bool.not_eq_true', not_exists, not_and] at hany
+        simpa using hany x hx
+      simp only [nodeRsp, replWrites_reg_held _ k alt oa ob hk hd', hany, if_false, Bool.false_eq_true]
+      rw [hd', union_of_subset hcb hsub]
+  unfold exchange
+  simp only [serve, hs]
+  by_cases hty : tyOf (Content.reg alt oa) = tyOf (Content.reg alt ob)
+  · have hab : oa = ob := by
+      rcases tyOf_inj hty with h | ⟨_, _, _, _, h, _⟩
+      · injection h
+      · cases h
+    split
+    · exact hfetched
+    · rw [hst, hd, hab, union_of_subset hcb (fun x hx => hx)]
+  · rw [if_pos (fetched_of_differs w src dst ns nd k _ _ c1 hheard hf hty)]
+    exact hfetched
+
+theorem union_ne_nil {a b : List Nat} (h : a ≠ []) : union a b ≠ [] := by
+  intro h0
+  cases a with
+  | nil => exact h rfl
+  | cons x xs =>
+    have : x ∈ union (x :: xs) b := (mem_union' _ _ _).2 (Or.inl (List.mem_cons_self ..))
+    rw [h0] at this; cases this
+
+/-- **Transaction sets converge (partial).** Nodes `a`, `b` hear each other and hold the sets `ia`, `ib` under `k`.
+One fair round — `a` advertises, `b` fetches what was scheduled; then `b` advertises, `a` fetches — leaves both with
+`ia ∪ ib`. `Fetchable` (both directions; the second one about `b`'s state after the first exchange) is what keeps this
+`_partial`: the diverging key must be the only new key of the advertisement (fast path) and that version must not
+already be in flight. Not proved: lists with several new keys (C08 `multi_key_takeup` gives queued-or-in-flight, the
+composition with delivery is missing), three or more nodes with the ranking argument, re-establishing the quiet-fetcher
+hypothesis after a round (a register fetch that merges to nothing leaves its in-flight entry until FETCH_TIMEOUT). -/
+theorem mutable_converge_partial_txs (w : World) (a b : Nat) (na nb : NodeSt) (k : Nat) (ia ib : List Nat)
+    (c1 c2 c3 c4 : List Entry)
+    (hk : k % 3 = 1) (ha : na.store.get k = some (.txs ia)) (hb : nb.store.get k = some (.txs ib))
+    (hia : ia ≠ []) (hca : Canon ia) (hcb : Canon ib)
+    (hab : heard w b a = true) (hba : heard w a b = true)
+    (hf1 : Fetchable w a b na nb k (.txs ia) (.txs ib))
+    (hf2 : Fetchable w b a (exchange w a b na nb k c1 c2) na k (.txs (union ia ib)) (.txs ia)) :
+    let nb' := exchange w a b na nb k c1 c2
+    let na' := exchange w b a nb' na k c3 c4
+    na'.store.get k = some (.txs (union ia ib)) ∧ nb'.store.get k = some (.txs (union ia ib)) := by
+  intro nb' na'
+  have h1 : nb'.store.get k = some (.txs (union ia ib)) :=
+    exchange_txs w a b na nb k ia ib c1 c2 hk ha hb hia hcb hab hf1
+  have h2 := exchange_txs w b a nb' na k (union ia ib) ia c3 c4 hk h1 ha (union_ne_nil hia) hca hba hf2
+  refine ⟨?_, h1⟩
+  show na'.store.get k = _
+  rw [h2]
+  congr 2
+  exact canon_ext (canon_union _ _) (canon_union _ _) (by
+    intro x; simp only [mem_union']
+    constructor
+    · rintro ((h | h) | h) <;> simp [h]
+    · rintro (h | h) <;> simp [h])
+
+/-- **Registers converge (partial)**: same round, same hypotheses, for two versions of one register (same base,
+diverging op sets). Depends on the F-g repair: with `skipHeldSameTypeOnly = false` the held key is never admitted. -/
+theorem mutable_converge_partial_reg (w : World) (a b : Nat) (na nb : NodeSt) (k : Nat) (alt : Bool) (oa ob : List Nat)
+    (c1 c2 c3 c4 : List Entry)
+    (hk : k % 3 = 2) (ha : na.store.get k = some (.reg alt oa)) (hb : nb.store.get k = some (.reg alt ob))
+    (hca : Canon oa) (hcb : Canon ob)
+    (hab : heard w b a = true) (hba : heard w a b = true)
+    (hf1 : Fetchable w a b na nb k (.reg alt oa) (.reg alt ob))
+    (hf2 : Fetchable w b a (exchange w a b na nb k c1 c2) na k (.reg alt (union oa ob)) (.reg alt oa)) :
+    let nb' := exchange w a b na nb k c1 c2
+    let na' := exchange w b a nb' na k c3 c4
+    na'.store.get k = some (.reg alt (union oa ob)) ∧ nb'.store.get k = some (.reg alt (union oa ob)) := by
+  intro nb' na'
+  have h1 : nb'.store.get k = some (.reg alt (union oa ob)) :=
+    exchange_reg w a b na nb k alt oa ob c1 c2 hk ha hb hcb hab hf1
+  have h2 := exchange_reg w b a nb' na k alt (union oa ob) oa c3 c4 hk h1 ha hca hba hf2
+  refine ⟨?_, h1⟩
+  show na'.store.get k = _
+  rw [h2]
+  congr 2
+  exact canon_ext (canon_union _ _) (canon_union _ _) (by
+    intro x; simp only [mem_union']
+    constructor
+    · rintro ((h | h) | h) <;> simp [h]
+    · rintro (h | h) <;> simp [h])
+
+/-! ## non-vacuity -/
+
+def naEx : NodeSt := { store := [(0, .chunk), (2, .reg false [0, 1]), (4, .txs [0])] }
+def nbEx : NodeSt := { store := [(0, .chunk), (2, .reg false [1, 2]), (4, .txs [0])] }
+
+/-- the hypotheses of `mutable_converge_partial_reg` hold for two nodes that share a chunk and a transaction set and
+hold diverging versions of one register -/
+example : heard padWorld 1 0 = true ∧ heard padWorld 0 1 = true ∧
+    OnlyNew padWorld 1 nbEx 0 (indexOf naEx.store) 2 (tyOf (.reg false [0, 1])) ∧
+    hasKT nbEx.fetcher.ogf 2 (tyOf (.reg false [0, 1])) = false ∧ Canon [0, 1] ∧ Canon [1, 2] := by
+  refine ⟨by decide, by decide, by unfold OnlyNew; decide, by decide, ?_, ?_⟩ <;> simp [Canon]
+
+/-- the same convergence through the system-level transitions (`step`), message by message: diverging registers and
+transaction sets on two nodes, one round, both end with the unions and an empty wire -/
+example :
+    let s := run padWorld (init 2)
+      [.seed 0 2 (.reg false [0, 1]) [], .seed 1 2 (.reg false [1, 2]) [],
+       .interval 0, .deliver 1 [⟨2, tyOf (.reg false [0, 1]), 0, 0⟩], .deliver 2 [], .deliver 3 [],
+       .interval 1, .deliver 4 [⟨2, tyOf (.reg false [0, 1, 2]), 1, 0⟩], .deliver 5 [], .deliver 6 []]
+    (s.node 0).store.get 2 = some (.reg false [0, 1, 2]) ∧ (s.node 1).store.get 2 = some (.reg false [0, 1, 2]) ∧
+    s.wire = [] := by
+  decide
+
+/-- a far holder: node 1 knows 19 closer peers, so node 0 is its 21st closest and is not heard -/
+example :
+    let w : World := { n := 2, rt := fun i => if i = 1 then (List.range' 10 19) ++ [0] else [1],
+                       pdist := fun _ _ => 0, kdist := fun _ _ => 0 }
+    heard w 1 0 = false ∧ heard w 0 1 = true ∧ heard w 1 28 = true ∧ heard w 1 1 = false := by
+  decide
+
 #print axioms SafeNet.Props.C09.only_close_holders_heard
 #print axioms SafeNet.Props.C09.only_close_holders_heard_sys
 #print axioms SafeNet.Props.C09.closeness_guard_present
@@ -244,5 +427,9 @@ theorem scratchpad_accept_partial (w : World) (b : Nat) (nb : NodeSt) (k n m : N
 #print axioms SafeNet.Props.C09.scratchpad_never_converges_witness
 #print axioms SafeNet.Props.C09.scratchpads_converge_is_false
 #print axioms SafeNet.Props.C09.scratchpad_accept_partial
+#print axioms SafeNet.Props.C09.exchange_txs
+#print axioms SafeNet.Props.C09.exchange_reg
+#print axioms SafeNet.Props.C09.mutable_converge_partial_txs
+#print axioms SafeNet.Props.C09.mutable_converge_partial_reg
 
 end SafeNet.Props.C09
